@@ -76,7 +76,10 @@ let is_int_tok s = String.length s > 0 && (let c = s.[0] in (c >= '0' && c <= '9
 
 let rec datum_of (x : sx) : datum =
   match x with
-  | A t -> if is_int_tok t then DInt (z_of_string t) else DSym (ident_of t)
+  | A t ->
+    if is_int_tok t then DInt (z_of_string t)
+    else if String.length t > 2 && t.[0] = '%' && t.[1] = 'f' then DFlt (z_of_string (String.sub t 2 (String.length t - 2)))
+    else DSym (ident_of t)
   | L xs -> DList (List.map datum_of xs)
 
 let label_of (x : sx) : z option = match x with A "-" -> None | A t -> Some (ident_of t) | _ -> failwith "label"
@@ -135,6 +138,7 @@ let rec show (v : sval) : string =
   | SvPrim p -> "PRIM:" ^ prim_name p
   | SvCut -> "#"
   | SvThunk -> "LZ"
+  | SvFlt h -> "F" ^ string_of_z h
 
 let show_trace (t : sval list list) : string =
   String.concat ";" (List.map (fun args -> String.concat "," (List.map show args)) t)
